@@ -248,7 +248,29 @@ fn kinds_str(k: &[ErrKind]) -> String {
     v.join("/")
 }
 
-pub fn open_options(max_buf: Option<u32>, strict: bool) -> OpenOptions {
+/// How an image is opened. Without a buffer size the public shortcuts `CompoundFile::open` /
+/// `CompoundFile::open_strict` are used (they are what the properties call "permissive open" and
+/// "strict open"); with one, the `OpenOptions` builder with the calls in varying order.
+pub struct Opener {
+    max_buf: Option<u32>,
+    strict: bool,
+}
+
+impl Opener {
+    pub fn open_with<F: Read + Seek>(self, io: F) -> std::io::Result<CompoundFile<F>> {
+        match (self.max_buf, self.strict) {
+            (None, false) => CompoundFile::open(io),
+            (None, true) => CompoundFile::open_strict(io),
+            (Some(_), _) => builder_options(self.max_buf, self.strict).open_with(io),
+        }
+    }
+}
+
+pub fn open_options(max_buf: Option<u32>, strict: bool) -> Opener {
+    Opener { max_buf, strict }
+}
+
+pub fn builder_options(max_buf: Option<u32>, strict: bool) -> OpenOptions {
     let mut o = OpenOptions::new();
     // the builder calls commute: even sizes are set after strict(), odd ones before
     if strict && max_buf.map(|m| m % 2 == 0).unwrap_or(false) {
@@ -420,6 +442,8 @@ impl Engine {
         // creating and then reopening with OpenOptions (the only public way for V3).
         let v = if version == 3 { Version::V3 } else { Version::V4 };
         match max_buf {
+            // `CompoundFile::create` is the public shortcut for a version-4 file
+            None if version == 4 => CompoundFile::create(io),
             None => CompoundFile::create_with_version(v, io),
             Some(m) => {
                 if version == 4 {
